@@ -642,6 +642,7 @@ func c06CancelBehindNote(n int, b Bounds) *Scenario {
 
 func c06Scenarios(tier string) []*Scenario {
 	var out []*Scenario
+	out = append(out, batchGates("C06.R2", tier)...)
 	maxN, b := 2, Bounds{2, -1, 0}
 	if tier != "quick" {
 		maxN, b = 3, Bounds{3, -1, 1}
